@@ -54,7 +54,8 @@ fn alphabet() -> Vec<EOp> {
 
 /// payload lengths x fills; marker payloads are searchable in files
 fn payload_shapes(seq: u64) -> Vec<Vec<u8>> {
-    let mut v = Vec::new();
+    // an empty payload next to non-empty ones is a legal batch
+    let mut v = vec![Vec::new()];
     for len in [1usize, 11, 15, 16, 17, 255, 1000] {
         for fill in 0..3 {
             let p: Vec<u8> = match fill {
@@ -97,7 +98,7 @@ pub fn plan(tier: &str) -> (PropMeta, Vec<Job>) {
         id: "C19",
         level: "model_checking",
         rule: format!(
-            "every history of exactly {depth} operations over {:?}, starting with encryption on (key 1) and, as control, off; each send is one batch of 21 payloads (lengths 1,11,15,16,17,255,1000 x fills 0x00, 0xFF, ASCII marker); 'damage' flips one bit (tag or data/nonce byte) of the newest stored encrypted payload, after which a read must fail or deliver exactly what was sent; after every step all messages are read back, every file under the data directory is searched for every marker written under encryption (payloads and journalled stream names), and restarts into key 1 / key 2 / encryption off are classified by what the files were written under",
+            "every history of exactly {depth} operations over {:?}, starting with encryption on (key 1) and, as control, off; each send is one batch of 22 payloads (an empty one, and lengths 1,11,15,16,17,255,1000 x fills 0x00, 0xFF, ASCII marker); 'damage' flips one bit (tag or data/nonce byte) of the newest stored encrypted payload, after which a read must fail or deliver exactly what was sent; after every step all messages are read back, every file under the data directory is searched for every marker written under encryption (payloads and journalled stream names), and restarts into key 1 / key 2 / encryption off are classified by what the files were written under",
             alphabet().iter().map(|o| o.short()).collect::<Vec<_>>()
         ),
         bounds: json!({"depth": depth, "alphabet": alphabet().iter().map(|o| o.short()).collect::<Vec<_>>(), "initial_modes": ["key1", "off"], "cache": [false, true]}),
